@@ -1639,11 +1639,20 @@ namespace gch
             &&  std::is_integral<to>::value;
       };
 
+      // Note: A derived-to-base pointer conversion may adjust the address (multiple or virtual
+      //       inheritance), so only conversions which keep the pointee type (modulo
+      //       cv-qualification) or go to `void *` may be done with memcpy.
       template <typename From, typename To>
       struct is_convertible_pointer
         : bool_constant<std::is_pointer<From>::value
                     &&  std::is_pointer<To>::value
-                    &&  std::is_convertible<From, To>::value>
+                    &&  std::is_convertible<From, To>::value
+                    &&  (  std::is_same<
+                             typename std::remove_cv<
+                               typename std::remove_pointer<From>::type>::type,
+                             typename std::remove_cv<
+                               typename std::remove_pointer<To>::type>::type>::value
+                       ||  std::is_void<typename std::remove_pointer<To>::type>::value)>
       { };
 
       // Memcpyable assignment.
